@@ -452,8 +452,31 @@ Definition check_C19_budget (x : gctx) (calls : list call) : bool :=
   (ok_terminations calls =? 0)
   || match x_asg x with Some a => ok_terminations calls <=? a_desired a - a_min a | None => false end.
 
+(* "The entire batch": a scan makes at most one removal request per path (force-tainted nodes, then grace-expired tainted
+   nodes), so the Node deletes of a scan form at most two blocks separated by terminations — one of force-tainted nodes and one of
+   tainted nodes of the view.  A request cut into pieces (terminate some, delete them, terminate more) shows as a further block,
+   or as two blocks of the same class. *)
+Definition removal_proj (calls : list call) : list (option id) :=
+  concat (map (fun c => match c with CA (ATermInAsg _ _ _) => [None] | CK (KDelete n _) => [Some n] | _ => [] end) calls).
+Fixpoint del_blocks (l : list (option id)) (cur : list id) : list (list id) :=
+  match l with
+  | [] => match cur with [] => [] | _ => [cur] end
+  | None :: r => match cur with [] => del_blocks r [] | _ => cur :: del_blocks r [] end
+  | Some n :: r => del_blocks r (cur ++ [n])
+  end.
+Definition names_in (cls : list node) (b : list id) : bool := forallb (in_class cls) b.
+Definition check_C19_requests (x : gctx) (calls : list call) : bool :=
+  match del_blocks (removal_proj calls) [] with
+  | [] => true
+  | [_] => true
+  | [b1; b2] => (names_in (c_forced (x_cls x)) b1 && names_in (c_tainted (x_cls x)) b2)
+                || (names_in (c_tainted (x_cls x)) b1 && names_in (c_forced (x_cls x)) b2)
+  | _ => false
+  end.
+
 Definition check_C19_group (x : gctx) (calls : list call) : bool := check_C19_calls x calls [] [] && check_C19_budget x calls.
-Definition check_C19_group_w (x : gctx) (calls : list call) : bool := check_C19_calls_w x calls [] [] && check_C19_budget x calls.
+Definition check_C19_group_w (x : gctx) (calls : list call) : bool :=
+  check_C19_calls_w x calls [] [] && check_C19_budget x calls && check_C19_requests x calls.
 
 (* ---------- C07, the exact remainder ---------- *)
 (* the decision after the two triggers (starvation, max node age): each raises it to at least 1 *)
